@@ -215,6 +215,11 @@ EmitScn == phase = "done" =>
                                            wantmid381 |-> CASE kinds.unit = "em" -> kinds.n * MidFs(kinds) [] kinds.unit = "rem" -> kinds.n * RootFs(kinds)
                                                             [] kinds.unit \in {"ex", "ch"} -> (kinds.n * MidFs(kinds) * FontRatio(kinds.unit)) \div 1000
                                                             [] OTHER -> kinds.n * Abs381(kinds.unit),
+                                           \* the same declaration on the ROOT element: em and rem refer to the root's own computed font size (only in the
+                                           \* font-size property of the root do they refer to the initial value)
+                                           wantroot381 |-> CASE kinds.unit \in {"em", "rem"} -> kinds.n * RootFs(kinds)
+                                                            [] kinds.unit \in {"ex", "ch"} -> (kinds.n * RootFs(kinds) * FontRatio(kinds.unit)) \div 1000
+                                                            [] OTHER -> kinds.n * Abs381(kinds.unit),
                                            wantpre381 |-> IF kinds.pre = "none" THEN 0 ELSE (2 * LeafFs(kinds) * FontRatio(kinds.pre)) \div 1000,
                                            \* line-height: 150% on the middle element is absolute: the leaf inherits the length, not the percentage
                                            lh381 |-> (3 * MidFs(kinds)) \div 2]))
